@@ -310,6 +310,16 @@ pub fn float_cases() -> Vec<Case> {
             spellings.push(format!("{}{}", f, e));
         }
     }
+    // doubles whose shortest decimal needs 17 significant digits, at every magnitude, and the
+    // borders of the format (largest, smallest normal, smallest subnormal, 2^53 + 1, powers of
+    // ten around the switch to scientific notation)
+    for sp in [
+        "1.2345678901234567e30", "3.0000000000000004e-9", "12345678901234567890.0", "9007199254740993.0", "1.7976931348623157e308", "2.2250738585072014e-308",
+        "4.9406564584124654e-324", "5e-324", "0.30000000000000004", "123456789.12345678", "1.0000000000000002", "9999999999999998.0", "1e15", "1e16", "1e17", "1e21", "1e22", "1e23",
+        "1e-4", "1e-5", "0.00009999999999999999", "8.5e-5", "6.02214076e23", "1.2345678901234567e-30", "7.2057594037927933e16", "0.1e-6", "1234567890123456.7e3",
+    ] {
+        spellings.push(sp.to_string());
+    }
     for sp in spellings {
         let clean = sp.replace('_', "");
         let v = match clean.parse::<f64>() {
